@@ -3,7 +3,7 @@
 # usage: selftest/evaluate_all.sh <output directory>   (run from a stable snapshot, e.g. with `vp run`)
 HERE="$(cd "$(dirname "$0")/.." && pwd)"
 OUT="${1:-/tmp/final_eval}"
-mkdir -p "$OUT/unfix" "$OUT/seeded"
+mkdir -p "$OUT/unfix" "$OUT/seeded" "$OUT/neutral"
 for f in "$HERE"/selftest/patches/unfix/*.diff; do
   b=$(basename "$f" .diff)
   d="$OUT/unfix/$b"; mkdir -p "$d"; cp "$f" "$d/patch.diff"
@@ -15,5 +15,11 @@ for d in "$HERE"/seeded/C* "$HERE"/seeded/R2-C*; do
   b=$(basename "$d")
   python3 "$HERE/tools/eval_mutant.py" "$d" --checks all > "$OUT/seeded/$b.json" 2>&1
   echo "seeded/$b done"
+done
+for d in "$HERE"/selftest/neutral/N*; do
+  [ -d "$d" ] || continue
+  b=$(basename "$d")
+  python3 "$HERE/tools/eval_mutant.py" "$d" --checks all > "$OUT/neutral/$b.json" 2>&1
+  echo "neutral/$b done"
 done
 echo ALL DONE
